@@ -34,6 +34,7 @@ LEVEL_TEXT = (
     "or not at all and never under bypass_checks; np.interp receives (levels, theta, phi) in these roles and fills the whole output; log is taken of theta "
     "and of the levels together; levels are masked exactly when strictly outside [min, max] and only under mask_edges; the result is named input+suffix "
     "and the new dimension after the target (or target_data for a bare array). The interpolant itself (np.interp) and dask column independence are trusted."
+    " Target levels re-arranged on the way into / out of the kernel are decided on representative level vectors; the shortest profiles (two valid values) and the empty suffix are cases."
 )
 LEVEL_NOTE = "Trusted: np.interp; numba = Python semantics. numba is absent here, so no pinned test executes transform.py at all."
 
